@@ -22,7 +22,7 @@ pub static DEF: PropDef = PropDef {
 };
 
 pub fn type_universe(tier: Tier) -> Vec<Rc<RT>> {
-    let mut v = types_upto(tier.pick(3, 5));
+    let mut v = types_upto(tier.pick(3, 7));
     // wider members: words, options of words, unequal sums
     let extra: Vec<Rc<RT>> = vec![
         RT::word(2),
@@ -48,6 +48,8 @@ pub fn type_universe(tier: Tier) -> Vec<Rc<RT>> {
             RT::from_final(&simplicity::types::Final::ctx8()),
         ]);
     }
+    let mut seen = std::collections::HashSet::new();
+    v.retain(|t| seen.insert(t.clone()));
     v
 }
 
